@@ -37,6 +37,8 @@ type Program struct {
 	Ecs   *packages.Package
 	Stats *packages.Package
 	Gen   *packages.Package
+	// Methodised lists the receiver-style functions that were rewritten into methods before analysis (see canon.go).
+	Methodised []string
 }
 
 // RepoDir returns the repository to analyse (env ARK_REPO or /repo).
